@@ -72,7 +72,29 @@ static void pair_events(H3Index h) {
     if (res > 0) { H3Index p; cellToParent(h, res - 1, &p); ev_cells_to_edge(h, p); ev_cells_to_edge(p, h); }
 }
 
+/* concurrent mode: 8 threads make the edge / vertex observations at the same time on cells spread over the globe (the answers are
+ * functions of the argument whatever other threads are asking); per-thread event streams */
+#include <pthread.h>
+typedef struct { CellVec cells; char *buf; size_t len; } TopoTh;
+static pthread_barrier_t g_bar;
+static void *topo_worker(void *arg) {
+    TopoTh *t = arg; vt_out = open_memstream(&t->buf, &t->len);
+    pthread_barrier_wait(&g_bar);
+    for (int rep = 0; rep < 2; rep++) for (int64_t i = 0; i < t->cells.n; i++) { ev_vertex_nbhd(t->cells.v[i]); if ((i + rep) % 2 == 0) ev_edge_nbhd(t->cells.v[i]); }
+    fclose(vt_out); vt_out = NULL; return NULL;
+}
+static void topo_threads(int quick, const char *path) {
+    enum { T = 8 }; TopoTh th[T]; pthread_t id[T]; memset(th, 0, sizeof th);
+    for (int t = 0; t < T; t++) for (int res = 1; res <= 15; res++) { cv_pentagon_strata(&th[t].cells, res, 1); cv_random_cells(&th[t].cells, res, quick ? 8 : 50); if (res >= 3) cv_seam_cells(&th[t].cells, res, quick ? 1 : 3); }
+    pthread_barrier_init(&g_bar, NULL, T);
+    for (int t = 0; t < T; t++) pthread_create(&id[t], NULL, topo_worker, &th[t]);
+    for (int t = 0; t < T; t++) pthread_join(id[t], NULL);
+    vt_open(path);
+    for (int t = 0; t < T; t++) { fwrite(th[t].buf, 1, th[t].len, vt_out); (free)(th[t].buf); cv_free(&th[t].cells); }
+}
+
 int main(int argc, char **argv) {
+    if (argc == 5 && !strcmp(argv[1], "threads")) { vt_seed(strtoull(argv[3], 0, 10) + 1010); topo_threads(argv[2][0] == 'q', argv[4]); vt_close(); return 0; }
     if (argc == 4 && !strcmp(argv[1], "cells")) {
         FILE *in = fopen(argv[2], "r"); if (!in) return 2; vt_seed(7); vt_open(argv[3]);
         uint64_t h; int n = 0;
